@@ -9,6 +9,8 @@
    src/curve25519/fe/load.rs, scalar/scalar32.rs (small functions), fe/fe32/mod.rs (compositions)
    src/scrypt.rs `salsa20_8`, src/kdf/argon2.rs `Block` views / indexing, src/cryptoutil.rs `xor_array64_mut`
    -> lean/CxVerif/Extracted/GlueRest.lean; tie theorems lean/CxVerif/Props/C20/GlueTieRest.lean (helpers Proofs/GlueRest.lean)."""
+import re
+
 import ktx_glue_rest as R
 from ktx_glue_rest import (RK, World, Struct, Fn, U, NAT, INT, BOOL, UNIT, U8, U32, U64, USIZE, LIST, VEC, STRUCT, EXT, TUPLE, OPTION,
                            BYTES, TranslateError)
@@ -336,14 +338,136 @@ def fe32_kernels():
           RK(W, file=F, fn="ct_eq", scope=r"impl CtEqual for &Fe\s*\{", self_ty=S, owner="Fe", lean_name="ct_eq_src"),
           RK(W, file=F, fn="ct_ne", scope=r"impl CtEqual for &Fe\s*\{", self_ty=S, owner="Fe", lean_name="ct_ne_src"),
           RK(W, file=F, fn="eq", scope=r"impl PartialEq for Fe\s*\{", self_ty=S, owner="Fe", lean_name="eq_src")]
+    ks.append(RK(W, file=F, fn="emul", lean_name="emul_src", doc="`(a as i64) * (b as i64)`: the i64 product CHECKED"))
     for fn in ("maybe_swap_with", "maybe_set", "square_repeatdly", "is_nonzero", "is_negative"):
         ks.append(RK(W, file=F, fn=fn, self_ty=S, owner="Fe", lean_name=f"{fn}_src"))
     ks.append(end("Fe32"))
     return ks
 
 
+# ================================================================================================= (d) scrypt::salsa20_8, argon2 Block, cryptoutil::xor_array64_mut
+def misc_kernels():
+    FS, FA, FC = "src/scrypt.rs", "src/kdf/argon2.rs", "src/cryptoutil.rs"
+    X16 = VEC(U32, 16)
+    WS = World(
+        vec_types={(U32, 16)},
+        fns={
+            # cryptoutil.rs (their own ties: Props/C01/GlueTieMd.lean); here with the length tests they perform
+            "read_u32v_le": Fn("read_u32v_le_vec 16 {1}", [("mut", X16), ("ref", BYTES)], fallible=True),
+            "read_u32_le": Fn("read_u32_le {0}", [("ref", BYTES)], ret=U32, fallible=True),
+            "write_u32_le": Fn("write_u32_le {0} {1}", [("mut", BYTES), ("val", U32)], fallible=True),
+        })
+    WB = World(vec_types={(U64, 128)}, file_consts=True,
+               structs={"Block": Struct("Cx.Spec.Argon2.Block", newtype=VEC(U64, 128))})
+    WX = World()
+    B = STRUCT("Block")
+    return [
+        ns("Scrypt"),
+        RK(WS, file=FS, fn="salsa20_8", lean_name="salsa20_8_src", local_types={"rounds": USIZE},
+           doc="word loading, `rounds / 2` iterations of the 32 `run_round!` rows (expanded from the macro and its invocation), feed-forward. "
+               "`let rounds = 8;` is typed `usize` here (rustc infers i32; the value and `/ 2` are the same)"),
+        end("Scrypt"),
+        ns("Argon2Block"),
+        RK(WB, kind="struct", file=FA, scope=r"struct Block\(", lean_name="Block_struct_src", expect="struct Block([u64; BLOCK_SIZE_U64]);"),
+        RK(WB, file=FA, fn="as_u8", scope=r"impl Block\s*\{", self_ty=B, owner="Block", lean_name="as_u8_src",
+           doc="the `unsafe` pointer cast = the little-endian byte view (x86-64); sizes read from the consts of the file"),
+        RK(WB, kind="lens", file=FA, fn="as_u8_mut", scope=r"impl Block\s*\{", self_ty=B, owner="Block", lean_name="as_u8_mut_src"),
+        RK(WB, file=FA, fn="index", scope=r"impl Index<usize> for Block\s*\{", self_ty=B, owner="Block", lean_name="index_src"),
+        RK(WB, kind="lens", file=FA, fn="index_mut", scope=r"impl IndexMut<usize> for Block\s*\{", self_ty=B, owner="Block", lean_name="index_mut_src"),
+        end("Argon2Block"),
+        ns("CryptoUtil"),
+        RK(WX, file=FC, fn="xor_array64_mut", lean_name="xor_array64_mut_src", doc="both arrays have the static length N"),
+        end("CryptoUtil"),
+    ]
+
+
+# ================================================================================================= (c') scalar32::muladd (sc_muladd) in STAGES
+def muladd_kernels():
+    """`muladd` is one straight-line function of ~1000 checked operations; translated whole, neither the definition nor its tie passes
+    Lean's limits.  It is translated in three stages by tools/ktx_misc.py (the "int" backend of tools/kernels/scalar32.py), each stage a
+    CONTIGUOUS range of the statements of the function (found by markers in the source, so that every statement is in exactly one stage;
+    the declarations `let mut x: i64;` without initialiser are not statements with an effect):
+        cols   the 36 loads (inlined) and the 24 column sums `s0 = c0 + a0*b0; … s23 = 0;`
+        carry  the two rounds of rounded carries that follow
+        tail   from `s11 += s23 * 666643;` to `Scalar(s)` — the SAME statements as `reduce_from_wide_bytes` after its loads
+    and `muladd_src` is their composition (generated below after the partition has been checked)."""
+    import ktx_misc
+    from ktx_misc import MK, P2, lex, find_fn, read_src
+    from kernels import scalar32 as S32
+    F = S32.F
+    SN = [f"s{i}" for i in range(24)]
+
+    def is_assign(s, name, op=None):
+        return s[0] == "assign" and s[1] == ("path", name) and (op is None or s[2] == op)
+
+    def marks(stmts):
+        i_cols = next(i for i, s in enumerate(stmts) if is_assign(s, "s0", "="))
+        i_carry = next(i for i, s in enumerate(stmts) if is_assign(s, "carry0", "="))
+        i_tail = next(i for i, s in enumerate(stmts) if is_assign(s, "s11", "+=") and "666643" in repr(s[3]) and "s23" in repr(s[3]))
+        if not (i_cols < i_carry < i_tail):
+            raise TranslateError("muladd: stage markers out of order")
+        return i_cols, i_carry, i_tail
+
+    def decl(s, prefix):
+        return s[0] == "let" and s[3] is None and s[1][0] == "var" and re.fullmatch(prefix + r"\d+", s[1][1])
+
+    def sel_cols(stmts):
+        _, i_carry, _ = marks(stmts)
+        return stmts[:i_carry]
+
+    def sel_carry(stmts):
+        _, i_carry, i_tail = marks(stmts)
+        return [s for s in stmts[:i_carry] if decl(s, "carry")] + stmts[i_carry:i_tail]
+
+    def sel_tail(stmts):
+        _, _, i_tail = marks(stmts)
+        return [s for s in stmts[:i_tail] if decl(s, "carry")] + stmts[i_tail:]
+
+    def tuple24(tr, st, ret, out, ind):
+        return "pure (" + ", ".join(st.vars[n].t for n in SN) + ")"
+
+    T24 = "Option (" + " × ".join(["Int"] * 24) + ")"
+    SENV = {n: (n, "i64") for n in SN}
+    SPAR = "(" + " ".join(SN) + " : Int)"
+    common = dict(file=F, fn="muladd", mode="int", monadic=True, int_ops=S32.INT_OPS, calls=S32.CALLS, panic="none",
+                  attrs="set_option maxRecDepth 100000 in\n")
+    k_cols = MK(lean_name="muladd_cols_src", params="(a b c : Scalar)", ret_type=T24, select=sel_cols, result=tuple24,
+                env={"a": ("a", S32.B(32)), "b": ("b", S32.B(32)), "c": ("c", S32.B(32))},
+                doc="`muladd`, stage 1: loads and column sums (every `+`, `*` on i64 checked)", inline_pure=False, **common)
+    k_carry = MK(lean_name="muladd_carry_src", params=SPAR, ret_type=T24, select=sel_carry, result=tuple24, env=dict(SENV),
+                 doc="`muladd`, stage 2: the two rounds of rounded carries", inline_pure=True, **common)
+    k_tail = MK(lean_name="muladd_tail_src", params=SPAR, ret_type="Option Scalar", select=sel_tail, result=S32.out_result, env=dict(SENV),
+                doc="`muladd`, stage 3: the reduction by L and the 32 output bytes (the statements of `reduce_from_wide_bytes` after its loads)", inline_pure=True, **common)
+
+    def compose():
+        _, body = find_fn(read_src(F), "muladd", None)
+        stmts = P2(lex(body)).block()
+        i_cols, i_carry, i_tail = marks(stmts)
+        # partition check: before the first column sum only loads (`let x = e;`) and declarations; the final statement is the result
+        for s in stmts[:i_cols]:
+            if s[0] != "let":
+                raise TranslateError("muladd: a statement other than `let` before the column sums")
+        if stmts[-1][0] != "ret":
+            raise TranslateError("muladd: no trailing result")
+        pr = lambda v: " ".join(R.proj(v, i, 24) for i in range(24))
+        return ("/-- GENERATED: `scalar32::muladd` = its three stages in source order (statements [0, %d) loads + column sums, [%d, %d) carries, "
+                "[%d, %d) reduction + output; checked to partition the function body on every run) -/\n"
+                "def muladd_src (a b c : Scalar) : Option Scalar :=\n"
+                "  (muladd_cols_src a b c).bind fun s =>\n  (muladd_carry_src %s).bind fun s =>\n  muladd_tail_src %s\n"
+                % (i_carry, i_carry, i_tail, i_tail, len(stmts), pr("s"), pr("s")))
+
+    return [
+        ns("Scalar32Muladd", "open Cx.Impl.Scalar32\nopen Cx.Impl.Fe32 (ck64 add64 sub64 mul64 shl64 shr u8of u8or)"),
+        RK(None, kind="misc", misc=k_cols, fn="muladd", file=F, lean_name="muladd_cols_src"),
+        RK(None, kind="misc", misc=k_carry, fn="muladd", file=F, lean_name="muladd_carry_src"),
+        RK(None, kind="misc", misc=k_tail, fn="muladd", file=F, lean_name="muladd_tail_src"),
+        RK(None, kind="gen", gen=compose, fn="muladd", file=F, lean_name="muladd_src"),
+        end("Scalar32Muladd"),
+    ]
+
+
 KERNELS = (blake2_hooks("b", 64) + blake2_hooks("s", 32) + md_hooks() + poly_hooks() + ct_kernels() + tag_kernels() + chacha_kernels()
-           + keccak_kernels() + load_kernels() + scalar32_kernels() + fe32_kernels())
+           + keccak_kernels() + load_kernels() + scalar32_kernels() + fe32_kernels() + misc_kernels() + muladd_kernels())
 
 HEADER = """import CxVerif.Impl.Blake2
 import CxVerif.Impl.Sha1
@@ -355,6 +479,8 @@ import CxVerif.Impl.ChaCha
 import CxVerif.Extracted.GlueSponge
 import CxVerif.Impl.Scalar32
 import CxVerif.Impl.Fe32
+import CxVerif.Impl.Argon2
+import CxVerif.Impl.Kdf
 /-!
   Extracted.GlueRest — GENERATED by tools/ktx_glue_rest.py (kernel specs tools/kernels/glue_rest.py) from the CURRENT Rust source.
   The definitions before `-- translated functions` are the fixed run-time library of the translation; they do not depend on the
@@ -414,6 +540,13 @@ def viewLE64 (words : List UInt64) (A B : Nat) : Option Bytes :=
 def unviewLE64 (bytes : Bytes) (A B : Nat) : Option (List UInt64) :=
   if bytes.length = B ∧ B = 8 * A then some ((List.range A).map fun k => leU64 (bytes.drop (8 * k))) else none
 def vecOfList {α : Type} (l : List α) (n : Nat) : Option (Vector α n) := if h : l.length = n then some ⟨l.toArray, by simpa using h⟩ else none
+
+/-- `cryptoutil::read_u32v_le(dst, input)` for a `[u32; n]` destination: `assert!(dst.len() * 4 == input.len())`, little-endian words -/
+def read_u32v_le_vec (n : Nat) (input : Bytes) : Option (Vector UInt32 n) :=
+  if n * 4 = input.length then some (Vector.ofFn fun (i : Fin n) => leU32 (input.drop (4 * i.val))) else none
+/-- `cryptoutil::read_u32_le` / `write_u32_le`: `<&[u8; 4]>::try_from(..).unwrap()` -/
+def read_u32_le (b : Bytes) : Option UInt32 := if b.length = 4 then some (leU32 b) else none
+def write_u32_le (dst : Bytes) (w : UInt32) : Option Bytes := if dst.length = 4 then some (u32le w) else none
 
 /-- `pub struct CtOption<T> { present: Choice, t: T }` (src/constant_time.rs; the declaration is checked by `CT.CtOption_struct_src`) -/
 structure CtOption (α : Type) where
